@@ -154,7 +154,7 @@ theorem peekAll_spec (laws : ScoreLaws ops) (hs1 : 1 ≤ s) (hsize : Q.length < 
           have key : CInv s cl Q c' ∧ AccOK ops s thr Q (seen ++ [cl]) (better ops r acc) := by
             cases r with
             | none =>
-              obtain ⟨hc', _, hst⟩ := hc.peek_none hcur hle hp
+              obtain ⟨hc', _, hst⟩ := hc.peek_none hcur hcs hle hp
               refine ⟨hc', ?_⟩
               cases acc with
               | none =>
